@@ -15,6 +15,8 @@ type parseInput struct {
 	Entry  string `json:"entry"` // file | expr | globals
 	Family string `json:"family"`
 	Text   string `json:"text"`
+	// Half is the same construction at half the nesting depth (deep-nest family): the work done must not explode between the two.
+	Half string `json:"half,omitempty"`
 }
 
 type family struct {
@@ -61,7 +63,7 @@ func parseFamilies(tier string) []family {
 	fams = append(fams, family{"file-prefix", total, func(i int, r *fw.Rand) parseInput {
 		for _, f := range cp {
 			if i <= len(f) {
-				return parseInput{"file", "file-prefix", f[:i]}
+				return parseInput{Entry: "file", Family: "file-prefix", Text: f[:i]}
 			}
 			i -= len(f) + 1
 		}
@@ -72,7 +74,7 @@ func parseFamilies(tier string) []family {
 	T := gen.Tags
 	ctxs := gen.BlockContexts
 	fams = append(fams, family{"tag1", len(T) * len(ctxs), func(i int, r *fw.Rand) parseInput {
-		return parseInput{"file", "tag1", strings.Replace(ctxs[i%len(ctxs)], "%s", T[i/len(ctxs)], 1)}
+		return parseInput{Entry: "file", Family: "tag1", Text: strings.Replace(ctxs[i%len(ctxs)], "%s", T[i/len(ctxs)], 1)}
 	}})
 	pairCtx := []int{0, 2, 3, 4, 14}
 	if thorough {
@@ -84,7 +86,7 @@ func parseFamilies(tier string) []family {
 	fams = append(fams, family{"tag2", len(T) * len(T) * len(pairCtx), func(i int, r *fw.Rand) parseInput {
 		c := ctxs[pairCtx[i%len(pairCtx)]]
 		i /= len(pairCtx)
-		return parseInput{"file", "tag2", strings.Replace(c, "%s", T[i%len(T)]+T[i/len(T)], 1)}
+		return parseInput{Entry: "file", Family: "tag2", Text: strings.Replace(c, "%s", T[i%len(T)]+T[i/len(T)], 1)}
 	}})
 	n3 := 100000
 	if thorough {
@@ -97,7 +99,7 @@ func parseFamilies(tier string) []family {
 		for j := 0; j < k; j++ {
 			b.WriteString(T[r.Intn(len(T))])
 		}
-		return parseInput{"file", "tag3", strings.Replace(c, "%s", b.String(), 1)}
+		return parseInput{Entry: "file", Family: "tag3", Text: strings.Replace(c, "%s", b.String(), 1)}
 	}})
 
 	// (3) token edits of valid files
@@ -115,9 +117,9 @@ func parseFamilies(tier string) []family {
 		if len(t) > 400 {
 			lo := r.Intn(len(t) - 300)
 			w := t[lo : lo+300]
-			return parseInput{"file", "token-edit", "{namespace w}\n" + gen.TokenEdit(r, w)}
+			return parseInput{Entry: "file", Family: "token-edit", Text: "{namespace w}\n" + gen.TokenEdit(r, w)}
 		}
-		return parseInput{"file", "token-edit", gen.TokenEdit(r, t)}
+		return parseInput{Entry: "file", Family: "token-edit", Text: gen.TokenEdit(r, t)}
 	}})
 
 	// (4) random bytes
@@ -130,7 +132,7 @@ func parseFamilies(tier string) []family {
 		if r.P(1, 2) {
 			s = "{namespace r}\n{template .t}\n" + s
 		}
-		return parseInput{"file", "random", s}
+		return parseInput{Entry: "file", Family: "random", Text: s}
 	}})
 
 	// (5) standalone expressions
@@ -142,17 +144,17 @@ func parseFamilies(tier string) []family {
 	fams = append(fams, family{"expr-prefix", etotal, func(i int, r *fw.Rand) parseInput {
 		for _, e := range gen.ExprCorpus {
 			if i <= len(e) {
-				return parseInput{"expr", "expr-prefix", e[:i]}
+				return parseInput{Entry: "expr", Family: "expr-prefix", Text: e[:i]}
 			}
 			i -= len(e) + 1
 		}
 		panic("unreachable")
 	}})
 	fams = append(fams, family{"expr-tok1", len(E), func(i int, r *fw.Rand) parseInput {
-		return parseInput{"expr", "expr-tok1", E[i]}
+		return parseInput{Entry: "expr", Family: "expr-tok1", Text: E[i]}
 	}})
 	fams = append(fams, family{"expr-tok2", len(E) * len(E), func(i int, r *fw.Rand) parseInput {
-		return parseInput{"expr", "expr-tok2", E[i%len(E)] + " " + E[i/len(E)]}
+		return parseInput{Entry: "expr", Family: "expr-tok2", Text: E[i%len(E)] + " " + E[i/len(E)]}
 	}})
 	ne3 := 60000
 	if thorough {
@@ -167,17 +169,17 @@ func parseFamilies(tier string) []family {
 				b.WriteByte(' ')
 			}
 		}
-		return parseInput{"expr", "expr-tokN", b.String()}
+		return parseInput{Entry: "expr", Family: "expr-tokN", Text: b.String()}
 	}})
 	var etoks [][]string
 	for _, e := range gen.ExprCorpus {
 		etoks = append(etoks, gen.SplitExprTokens(e))
 	}
 	fams = append(fams, family{"expr-edit", ne3 / 2, func(i int, r *fw.Rand) parseInput {
-		return parseInput{"expr", "expr-edit", gen.TokenEdit(r, etoks[i%len(etoks)])}
+		return parseInput{Entry: "expr", Family: "expr-edit", Text: gen.TokenEdit(r, etoks[i%len(etoks)])}
 	}})
 	fams = append(fams, family{"expr-random", ne3 / 2, func(i int, r *fw.Rand) parseInput {
-		return parseInput{"expr", "expr-random", gen.RandomBytes(r, 40)}
+		return parseInput{Entry: "expr", Family: "expr-random", Text: gen.RandomBytes(r, 40)}
 	}})
 
 	// (6) globals files
@@ -201,7 +203,87 @@ func parseFamilies(tier string) []family {
 				b.WriteString("\n")
 			}
 		}
-		return parseInput{"globals", "globals", b.String()}
+		return parseInput{Entry: "globals", Family: "globals", Text: b.String()}
+	}})
+	// (7) deep nesting: every bracketing construct repeated d times inside every place that takes an expression (and block
+	// commands nested d deep), balanced and cut short. Depths 12/24 carry the half-depth twin for the work-growth oracle;
+	// the large depths are there for the stack and for quadratic-or-worse paths.
+	nest := [][2]string{{"[", "]"}, {"(", ")"}, {"round(", ")"}, {"['k': ", "]"}, {"$a ? 1 : [", "]"}, {"$a ? [", "] : 2"}, {"[", "] ? 1 : 2"}, {"not ", ""}, {"-", ""},
+		{"$a ?: (", ")"}, {"$a[", "]"}, {"$a?[", "]"}, {"-(", ")"}, {"$a ? 1 : ", ""}, {"1 + (", ")"}, {"(", ") + 1"}, {"$a and (", ")"}, {"[1, ", "]"}, {"f(1, ", ")"},
+		{"$a.b[", "].c"}, {"$a ?: [", "]"}, {"$a ? 1 : -", ""}, {"['k': f(", ")]"}, {"(not [", "])"}, {"$a ? f([", "]) : 1"}, {"1 < ", ""}, {"$a == (", ")"}}
+	exprCtx := []string{"{%s}", "{if %s}x{/if}", "{msg desc=\"d\"}{plural %s}{case 1}a{default}b{/plural}{/msg}", "{msg desc=\"d\"}{plural $n}{case %s}a{default}b{/plural}{/msg}",
+		"{call .t data=\"%s\" /}", "{switch 1}{case %s}x{/switch}", "{let $v: %s /}", "{foreach $x in %s}x{/foreach}", "{$a|truncate:%s}", "{call .t}{param p: %s /}{/call}",
+		"{css %s, base}", "{for $i in range(%s)}x{/for}", "{print %s}", "{msg desc=\"d\"}a{%s}b{/msg}"}
+	blocks := [][2]string{{"{if $a}", "{/if}"}, {"{foreach $x in $l}", "{/foreach}"}, {"{let $v}", "{/let}"}, {"{switch 1}{case 1}", "{/switch}"}, {"{if $a}x{else}", "{/if}"},
+		{"{call .t}{param p}", "{/param}{/call}"}, {"{log}", "{/log}"}, {"{if $a}x{elseif $b}", "{/if}"}, {"{for $i in range(2)}", "{/for}"}, {"{foreach $x in $l}x{ifempty}", "{/foreach}"}}
+	depths := []int{12, 24, 100, 1000, 20000, -1}
+	if thorough {
+		depths = []int{12, 24, 100, 1000, 20000, 200000, -1}
+	}
+	// -1: a million levels (megabytes of input) for one combination in 11 (thorough: in 3), 3000 levels for the others
+	million := func(k int) int {
+		if (thorough && k%3 == 0) || k%11 == 0 {
+			return 1000000
+		}
+		return 3000
+	}
+	build := func(p [2]string, d int, cut bool) string {
+		if cut {
+			return strings.Repeat(p[0], d) + "$x" + strings.Repeat(p[1], d/2)
+		}
+		return strings.Repeat(p[0], d) + "$x" + strings.Repeat(p[1], d)
+	}
+	wrap := func(body string) string { return "{namespace d}\n/** */\n{template .t}\n" + body + "\n{/template}\n" }
+	nEntries := len(exprCtx) + 2 // + standalone expression + globals file
+	fams = append(fams, family{"deep-nest", len(nest) * nEntries * len(depths) * 2, func(i int, r *fw.Rand) parseInput {
+		cut := i%2 == 1
+		i /= 2
+		d := depths[i%len(depths)]
+		i /= len(depths)
+		if d < 0 {
+			d = million(i)
+		}
+		c := i % nEntries
+		p := nest[i/nEntries]
+		mk := func(d int) parseInput {
+			e := build(p, d, cut)
+			switch {
+			case c == len(exprCtx):
+				return parseInput{Entry: "expr", Family: "deep-nest", Text: e}
+			case c == len(exprCtx)+1:
+				return parseInput{Entry: "globals", Family: "deep-nest", Text: "G = " + e + "\n"}
+			}
+			e = strings.NewReplacer(`\`, `\\`, `"`, `\"`).Replace(e)
+			if !strings.Contains(exprCtx[c], `="%s"`) {
+				e = build(p, d, cut)
+			}
+			return parseInput{Entry: "file", Family: "deep-nest", Text: wrap(strings.Replace(exprCtx[c], "%s", e, 1))}
+		}
+		in := mk(d)
+		if d == 24 {
+			in.Half = mk(12).Text
+		}
+		return in
+	}})
+	fams = append(fams, family{"deep-blocks", len(blocks) * len(depths) * 2, func(i int, r *fw.Rand) parseInput {
+		cut := i%2 == 1
+		i /= 2
+		d := depths[i%len(depths)]
+		if d < 0 {
+			d = million(i / len(depths))
+		}
+		p := blocks[i/len(depths)]
+		mk := func(d int) string {
+			if cut {
+				return wrap(strings.Repeat(p[0], d) + "x" + strings.Repeat(p[1], d/2))
+			}
+			return wrap(strings.Repeat(p[0], d) + "x" + strings.Repeat(p[1], d))
+		}
+		in := parseInput{Entry: "file", Family: "deep-blocks", Text: mk(d)}
+		if d == 24 {
+			in.Half = mk(12)
+		}
+		return in
 	}})
 	return fams
 }
